@@ -61,10 +61,13 @@ class ViewSystem(object):
                 ['ctrlpts', 0], ['ctrlpts', 1], ['weights', 0], ['weights', 1],
                 ['ctrlptsw', 0], ['ctrlptsw', 1], ['set_ctrlpts', 0],
                 # data variety: all weights equal (not 1), weights < 0.1 and > 100, negative fractional points
-                ['weights', 2], ['weights', 3], ['ctrlpts', 2]]
+                ['weights', 2], ['weights', 3], ['ctrlpts', 2]] + \
+            ([['method', 'reverse']] if self.pd == 1 else [['method', 'transpose']] if self.pd == 2 else [])
 
     def value(self, op):
         k, i = op
+        if k == 'method':
+            return None
         if k == 'ctrlpts':
             if i == 2:
                 return A.make_net(self.sizes, 3, 'negfrac')
@@ -80,6 +83,10 @@ class ViewSystem(object):
         k = op[0]
         if k == 'read':
             return _cp(getattr(obj, op[1]))
+        if k == 'method':
+            # structural edits offered as methods of the object: the three views have to follow together
+            getattr(obj, op[1])()
+            return None
         v = copy.deepcopy(self.value(op))
         if k == 'ctrlpts':
             obj.ctrlpts = v
@@ -91,7 +98,7 @@ class ViewSystem(object):
             if self.pd == 1:
                 obj.set_ctrlpts(v)
             else:
-                obj.set_ctrlpts(v, *self.sizes)
+                obj.set_ctrlpts(v, *list(obj.cpsize))      # (current sizes: a transpose may have swapped them)
         # the caller owns the lists it passed in: overwrite them after the call (a shape that kept a reference to its
         # argument instead of its own copy now shows it)
         for i in range(len(v)):
@@ -138,7 +145,14 @@ class ViewSystem(object):
         ctx.close(base + 'copy.original_views_kept', [_cp(before.ctrlpts), _cp(before.weights)], [p0, w0], TOL, 1.0, rc, feats)
         bPw = _cp(before.ctrlptsw)
         ctx.close(base + 'copy.original_view_relation', bPw, [[x * w for x in p] + [w] for p, w in zip(p0, w0)], TOL, 1.0, rc, feats)
-        if op[0] == 'ctrlpts':
+        if op[0] == 'method':
+            if op[1] == 'reverse':
+                ctx.close(base + 'method.reverse.views_follow', [P, W], [list(reversed(p0)), list(reversed(w0))], TOL, 1.0, rc, feats)
+            else:
+                su, sv = before.cpsize
+                tr = lambda L: [L[v_ + sv * u_] for v_ in range(sv) for u_ in range(su)]
+                ctx.close(base + 'method.transpose.views_follow', [P, W], [tr(p0), tr(w0)], TOL, 1.0, rc, feats)
+        elif op[0] == 'ctrlpts':
             ctx.close(base + 'set_ctrlpts_view.reads_back', P, v, TOL, 1.0, rc, feats)
             ctx.close(base + 'set_ctrlpts_view.keeps_weights', W, w0, TOL, 1.0, rc, feats)
         elif op[0] == 'weights':
@@ -156,8 +170,8 @@ def gen_cases(tier, seed):
     q = tier == 'quick'
     depth = 4 if q else 6
     cases = []
-    vs = ViewSystem('curve')
     for kind in ('curve', 'surface', 'volume'):
+        vs = ViewSystem(kind)
         cases.append(dict(mode='bfs', kind=kind, depth=depth, prefix=None))
         for op in vs.ops(None):
             cases.append(dict(mode='bfs', kind=kind, depth=depth, prefix=[op]))
